@@ -284,6 +284,10 @@ class VLoop(base_events.BaseEventLoop):
         if horizon > self._vtime:
             self._vtime = horizon
 
+    def timer_profile(self) -> tuple[float, ...]:
+        """Pending timer deadlines relative to now (part of a canonical state: what will fire when)."""
+        return tuple(sorted(round(h._when - self._vtime, 6) for h in self._scheduled if not h._cancelled))  # noqa: SLF001
+
     def live_tasks(self) -> list[asyncio.Task[Any]]:
         return [t for t in self.tasks if not t.done()]
 
